@@ -3,6 +3,7 @@ import DaskModel.Model.Chunks
 import DaskModel.Model.ChunksPlanner
 import DaskModel.Model.ChunksAuto
 import DaskModel.Model.Creation
+import DaskModel.Model.CreationFloat
 import DaskModel.Model.Structural
 import DaskModel.Model.ShufflePlan
 import DaskModel.Model.ReshapeRechunk
@@ -237,7 +238,8 @@ def hAutoSound : Handler := handler fun args =>
 
 def encABlock (b : ABlock) : SExp := .list [.int b.start, .int b.stop, .int b.len]
 
-/-- `(arange start stop step (chunks…))` ↦ `(num ((bstart bstop len)…) ((values…)…))` | `(raised)` -/
+/-- `(arange start stop step (chunks…))` ↦ `(num ((bstart bstop len)…) ((values…)…) ((offset size)…) ((values…)…))` | `(raised)`:
+    the fallback plan (`chunk.arange` on block bounds) and the plan of `chunk.arange_block` -/
 def hArange : Handler := handler fun args =>
   match args with
   | [a, b, s, cs] => do
@@ -247,7 +249,62 @@ def hArange : Handler := handler fun args =>
     let cs ← cs.toNats?
     match arangeNum a b s with
     | none => pure (.list [.sym "raised"])
-    | some n => pure (.list [.int n, .list ((arangeBlocks a s 0 cs).map encABlock), encIntss (arangeValues a s cs)])
+    | some n => pure (.list [.int n, .list ((arangeBlocks a s 0 cs).map encABlock), encIntss (arangeValues a s cs),
+                            .list ((blockOffsets 0 cs).map (fun p => SExp.ofNats [p.1, p.2])), encIntss (arangeValuesInt a s cs)])
+  | _ => none
+
+/-- a double as `(m e)` = `m * 2^e` -/
+def decF64 : SExp → Option SoftFloat.F64
+  | .list [m, e] => do pure ⟨← m.toInt?, ← e.toInt?⟩
+  | _ => none
+
+def encF64 (x : SoftFloat.F64) : SExp :=
+  let y := SoftFloat.normalize x
+  .list [.int y.m, .int y.e]
+
+/-- `(sf op x y)` ↦ the binary64 result `(m e)` (normalised) | `(raised)` | an int | a bool -/
+def hSoftFloat : Handler := handler fun args =>
+  match args with
+  | [.sym op, x, y] => do
+    let x ← decF64 x
+    let y ← decF64 y
+    match op with
+    | "add" => pure (encF64 (SoftFloat.add x y))
+    | "sub" => pure (encF64 (SoftFloat.sub x y))
+    | "mul" => pure (encF64 (SoftFloat.mul x y))
+    | "div" => match SoftFloat.div x y with
+      | some q => pure (encF64 q)
+      | none => pure (.list [.sym "raised"])
+    | "ceil" => pure (.int (SoftFloat.ceil x))
+    | "ofint" => pure (encF64 (SoftFloat.ofInt x.m))
+    | "le" => pure (SExp.ofBool (SoftFloat.le x y))
+    | "isclose" => pure (SExp.ofBool (SoftFloat.isclose x y))
+    | _ => none
+  | _ => none
+
+/-- `(arange_f start stop step (chunks…))` (doubles as `(m e)`) ↦ `(shifted num ((values…)…) (whole…))` | `(raised)` -/
+def hArangeF : Handler := handler fun args =>
+  match args with
+  | [a, b, s, cs] => do
+    let a ← decF64 a
+    let b ← decF64 b
+    let s ← decF64 s
+    let cs ← cs.toNats?
+    match arangePlanF a b s with
+    | none => pure (.list [.sym "raised"])
+    | some p => pure (.list [SExp.ofBool p.shifted, .int p.num,
+                            .list ((arangeValuesF a p cs).map (fun blk => .list (blk.map encF64))),
+                            .list ((arangeSpecF a p).map encF64)])
+  | _ => none
+
+/-- `(arange_old_lens start step (chunks…))` ↦ the block lengths of the plan before the repair (`none` = raised) -/
+def hArangeOldLens : Handler := handler fun args =>
+  match args with
+  | [a, s, cs] => do
+    let a ← decF64 a
+    let s ← decF64 s
+    let cs ← cs.toNats?
+    pure (.list ((oldBlockLens a s 0 cs).map (fun o => match o with | some n => .int n | none => .sym "none")))
   | _ => none
 
 /-- `(linspace a b range num endpoint (chunks…))` ↦ `(((offset size)…) ((values…)…) (spec…))` (numerators over `div`) -/
@@ -672,6 +729,16 @@ def hCompress : Handler := handler fun args =>
     | _, _ => pure c27Raised
   | _ => none
 
+/-- `(compress_np (cond as 0/1…) (xs…))` ↦ `(ok (…))` | `(raised)` : a NumPy condition, possibly longer than the axis -/
+def hCompressNp : Handler := handler fun args =>
+  match args with
+  | [cond, xs] => do
+    let cond := (← cond.toNats?).map (· != 0)
+    match compressNp cond (← xs.toInts?) with
+    | some w => pure (.list [.sym "ok", SExp.ofInts w])
+    | none => pure c27Raised
+  | _ => none
+
 /-- `(unravel order (shape…) ((block…)…))` ↦ `(ok (((coords…)…)…))` | `(raised)` -/
 def hUnravel : Handler := handler fun args =>
   match args with
@@ -740,7 +807,7 @@ def table : List (String × Handler) := [
   ("searchsorted", hSearchsorted), ("bincount_w", hBincountW), ("unique_inverse", hUniqueInverse), ("bincount", hBincount), ("histogram", hHistogram), ("unique", hUnique),
   ("unique_internal", hUniqueInternal), ("nonzero", hNonzero), ("coarsen_sum", hCoarsen),
   ("aligned_coarsen", hAlignedCoarsen), ("da_coarsen", hDaCoarsen), ("histdd", hHistdd), ("hist2d", hHist2d),
-  ("digitize", hDigitize), ("compress", hCompress), ("unravel", hUnravel), ("ravel", hRavel), ("argwhere", hArgwhere),
+  ("digitize", hDigitize), ("compress", hCompress), ("compress_np", hCompressNp), ("unravel", hUnravel), ("ravel", hRavel), ("argwhere", hArgwhere),
   ("bincount_tree", hBincountTree),
   ("concat_plan", hConcatPlan), ("pad", hPad), ("pad_chunks", hPadChunks), ("roll", hRoll),
   ("expand_tuple", hExpandTuple), ("contract_tuple", hContractTuple), ("lower_dim", hLowerDim),
@@ -748,6 +815,7 @@ def table : List (String × Handler) := [
   ("reshape_rechunk", hReshapeRechunk), ("reshape_check", hReshapeCheck), ("blocks_flat", hBlocksFlat),
   ("grid_op", hGridOp), ("stack_op", hStackOp), ("bcast_rows", hBcastRows), ("bcast_len1", hBcastLen1), ("list_op", hListOp),
   ("arange", hArange), ("linspace", hLinspace), ("eye", hEye), ("diag", hDiag),
+  ("sf", hSoftFloat), ("arange_f", hArangeF), ("arange_old_lens", hArangeOldLens),
   ("normalize", hNormalize), ("blockdims", hBlockdims), ("intersect1d", hIntersect),
   ("old_to_new", hOldToNew), ("rechunk1d", hRechunk1d), ("divide_to_width", hDivide),
   ("merge_to_number", hMergeNum), ("graph_size", hGraphSize),
